@@ -176,6 +176,7 @@ type Unit struct {
 	usedAssume []string
 	declared map[string]bool
 	nepoch   int
+	thName   string
 }
 
 const maxPaths = 6000
